@@ -158,6 +158,21 @@ func (p *P) Project(x interface{}) *V {
 	return v
 }
 
+// ProjectMany projects several values into ONE heap (identity is kept
+// across the values): returns the value with "roots" instead of "r".
+func (p *P) ProjectMany(xs []interface{}) M {
+	v := &V{p: p, seen: map[ident]int{}, Nodes: []M{}}
+	roots := make([]M, len(xs))
+	for i, x := range xs {
+		if x == nil {
+			roots[i] = M{"k": "nil"}
+		} else {
+			roots[i] = v.slot(reflect.ValueOf(x), 0)
+		}
+	}
+	return M{"n": v.Nodes, "roots": roots}
+}
+
 func (v *V) newNode(n M) int {
 	v.Nodes = append(v.Nodes, n)
 	return len(v.Nodes)
